@@ -18,6 +18,8 @@ from .terms import (
     And,
     App,
     Concat,
+    Contains,
+    Unit,
     Eq,
     Extract,
     Ge,
@@ -166,7 +168,10 @@ def instantiate(terms, rounds=5, templates=None):
         allsub = {}
         for t in work:
             subterms(t, allsub)
-        bound = set(t.args[0].args[0] for t in allsub.values() if t.op in ("#forall", "#exists"))
+        # names bound anywhere in the VC, accumulated over the rounds (later rounds look at the new lemmas only)
+        bound_all = persist.setdefault("bound", set())
+        bound_all.update(t.args[0].args[0] for t in allsub.values() if t.op in ("#forall", "#exists"))
+        bound = set(bound_all)
         if bound:
             # never instantiate on terms that mention a bound variable
             allsub = {k: t for k, t in allsub.items() if t.op in ("#forall", "#exists") or not (bound & set(_names(t)))}
@@ -234,6 +239,13 @@ def instantiate(terms, rounds=5, templates=None):
                 s, a, n = x.args
                 new.append(Implies(Or(Le(n, I(0)), Lt(a, I(0)), Ge(a, Len(s))), Eq(fx, h.zero())))
                 new.append(Implies(And(Le(I(0), a), Lt(a, Len(s)), Eq(n, I(1))), Eq(fx, h.unit(Nth(s, a)))))
+                new.append(Implies(And(Le(I(0), a), Lt(Add(a, I(1)), Len(s)), Eq(n, I(2))), Eq(fx, h.plus(h.unit(Nth(s, a)), h.unit(Nth(s, Add(a, I(1))))))))
+                if s.op == "seq.extract":
+                    # a slice of a slice is a slice of the base:  s0[a0:a0+n0][a:a+n] == s0[a0+a:a0+a+n]  when it fits
+                    s0, a0, n0 = s.args
+                    inner = Extract(s0, Add(a0, a), n)
+                    new.append(Implies(And(Le(I(0), a0), Le(I(0), a), Le(I(0), n), Le(Add(a, n), n0)), Eq(fx, h.of(inner))))
+                    stack.append((h, inner))
                 new.append(Implies(And(Eq(a, I(0)), Ge(n, Len(s))), Eq(fx, h.of(s))))
             elif x.op == "irange":
                 by_range.setdefault(str(h.of(x.args[0])) + "|" + str(x.args[0]), (h, {}))[1][kx] = x
@@ -462,6 +474,44 @@ def instantiate(terms, rounds=5, templates=None):
                         if changed:
                             done_other.add(kk)
                             new.append(Eq(t, App(t.op, (xs,) + tuple(na), t.sort)))
+        # membership in sequences (x in L, x in L[:n]): both solvers are slow on seq.contains over strings, the three facts that
+        # loops over the keys of a dictionary need are instantiated on the ground terms: an element at a valid index is contained;
+        # a prefix that contains x extends to the whole; the prefix one longer contains x iff the shorter does or the new element is x
+        cont = [t for t in allsub.values() if t.op == "seq.contains" and t.args[1].op == "seq.unit"]
+        if cont:
+            nths = {}
+            for t in allsub.values():
+                if t.op == "seq.nth":
+                    nths.setdefault(str(t.args[0]), {})[str(t.args[1])] = t
+            pref = {}
+            for c in cont[:40]:
+                X, x = c.args[0], c.args[1].args[0]
+                base = X
+                if X.op == "seq.extract" and X.args[1].op == "#int" and X.args[1].val == 0:
+                    base, n = X.args[0], X.args[2]
+                    pref.setdefault((str(base), str(x)), (base, x, {}))[2][str(n)] = (n, c)
+                    kk = ("cont-pre", str(c))
+                    if kk not in done_other:
+                        done_other.add(kk)
+                        new.append(Implies(c, Contains(base, Unit(x))))
+                        new.append(Implies(Le(n, I(0)), Not(c)))
+                        new.append(Implies(Ge(n, Len(base)), Eq(c, Contains(base, Unit(x)))))
+                        # one more element
+                        c1 = Contains(Extract(base, I(0), Add(n, I(1))), Unit(x))
+                        new.append(Implies(And(Le(I(0), n), Lt(n, Len(base))), Eq(c1, Or(c, Eq(Nth(base, n), x)))))
+                kk = ("cont-sk", str(c))
+                if kk not in done_other:
+                    done_other.add(kk)
+                    # a member sits at some position (skolem constant named after the term, so that it is the same in every round)
+                    sk = Const("member_at!%s" % hashlib.sha1(str(c).encode()).hexdigest()[:10], INT)
+                    new.append(Implies(c, And(Le(I(0), sk), Lt(sk, Len(X)), Eq(Nth(X, sk), x))))
+                for ki, nt in list(nths.get(str(base), {}).items())[:8]:
+                    kk = ("cont-nth", str(base), ki)
+                    if kk in done_other:
+                        continue
+                    done_other.add(kk)
+                    i = nt.args[1]
+                    new.append(Implies(And(Le(I(0), i), Lt(i, Len(base))), Contains(base, Unit(nt))))
         def nth_rules(nth_terms):
             new = []
             # a sequence constant defined by a top-level equation (c == concatenation / spec function): its elements are the
@@ -542,7 +592,8 @@ def instantiate(terms, rounds=5, templates=None):
                 break
         # reverse (uninterpreted rev_*): length and element facts at the index terms of the VC
         idx_terms = {}
-        bound = set(t.args[0].args[0] for t in allsub.values() if t.op in ("#forall", "#exists"))
+        bound_all.update(t.args[0].args[0] for t in allsub.values() if t.op in ("#forall", "#exists"))
+        bound = set(bound_all)
         for t in allsub.values():
             if t.op in ("seq.nth", "str.at") and len(str(t.args[1])) < 200 and not (bound & set(consts_of([t.args[1]]))):
                 idx_terms.setdefault(str(t.args[0]), {})[str(t.args[1])] = t.args[1]
